@@ -1022,6 +1022,13 @@ def find_object_loose(objs, name):
     return None
 
 
+def block_named_like_device(c):
+    """F14's class: some block (at any depth) whose normalised name is the device name."""
+    nm = c.get("names") or {}
+    pas = lambda x: nm.get("pascal", {}).get(x, x)
+    return any(o["kind"] == "block" and pas(o["name"]) == c["device_name"] for o in all_objects(c["adef"]["objects"]))
+
+
 def check_c14(c, af, a, mf):
     if c.get("profile") != "names":
         return None
